@@ -13,13 +13,26 @@ CONSTANTS Ops,          \* subset of {"onboard", "unlock", "changepin", "pubkeys
           Platforms     \* subset of {"ledger", "sgx"}
 
 Modes      == {"boot", "signer", "uihb", "unknown", "other"}
-PinClasses == {"valid", "short", "digits", "nonalnum"}
+\* PIN *content* classes (an environment choice, made when the command first looks at the PIN).
+\* The harness concretises every class with a list of boundary-first members
+\* (harness/admin_ops.py PIN_MEMBERS); every member is run in the single-deviation behaviours.
+\*   ok      compliant: mixed / upper only / lower only / a single letter first or last
+\*   digits  8 digits, no letter
+\*   len7, len9   alphanumeric with a letter, one character short / long
+\*   ascii   8 bytes, one of them ASCII but not alphanumeric (punctuation, space, NUL, newline;
+\*           inside or at either end)
+\*   hi8     non-ASCII text whose UTF-8 encoding is exactly 8 bytes
+\*   hiwide  8 characters, more than 8 bytes
+PinClasses == {"ok", "digits", "len7", "len9", "ascii", "hi8", "hiwide"}
 
-\* one concrete representative per operator PIN class (the predicates work on bytes)
-PinOf(c) == IF c = "valid"  THEN <<97, 98, 99, 100, 49, 50, 51, 52>>        \* abcd1234
-            ELSE IF c = "short"  THEN <<97, 98, 99, 49, 50, 51, 52>>        \* abc1234
-            ELSE IF c = "digits" THEN <<49, 50, 51, 52, 53, 54, 55, 56>>    \* 12345678
-            ELSE <<97, 98, 99, 33, 49, 50, 51, 52>>                         \* abc!1234
+\* one concrete representative per class (the predicates work on bytes)
+PinOf(c) == IF c = "digits" THEN <<49, 50, 51, 52, 53, 54, 55, 56>>             \* 12345678
+            ELSE IF c = "len7"   THEN <<97, 98, 99, 49, 50, 51, 52>>            \* abc1234
+            ELSE IF c = "len9"   THEN <<97, 98, 99, 100, 49, 50, 51, 52, 53>>   \* abcd12345
+            ELSE IF c = "ascii"  THEN <<97, 98, 99, 33, 49, 50, 51, 52>>        \* abc!1234
+            ELSE IF c = "hi8"    THEN <<90, 195, 188, 114, 105, 99, 104, 49>>   \* Zu"rich1 (UTF-8)
+            ELSE IF c = "hiwide" THEN <<97, 98, 99, 100, 101, 102, 103, 195, 169>>  \* abcdefge'
+            ELSE <<97, 98, 99, 100, 49, 50, 51, 52>>       \* ok (and "?": never looked at): abcd1234
 UPin    == <<49, 50, 51, 52, 53, 54, 55, 97>>          \* changepin's current PIN: 1234567a
 SeedRep == [k \in 1..SeedLen |-> (7 * k) % 256]        \* what the randomness source returns
 NoSeed  == <<>>
@@ -32,11 +45,11 @@ VARIABLES pc, cfg, env, dev, obs, outcome, hist, files, pin
 vars == <<pc, cfg, env, dev, obs, outcome, hist, files, pin>>
 
 Cfgs == {c \in [op : Ops, plat : Platforms, any_pin : BOOLEAN, no_unlock : BOOLEAN,
-                src : {"opt", "prompt"}, pinc : PinClasses, outfile : BOOLEAN] :
+                src : {"opt", "prompt"}, outfile : BOOLEAN] :
             /\ (c.op \in {"onboard", "unlock"} => ~c.no_unlock)
             /\ (c.outfile => (c.op = "pubkeys" \/ (c.op = "onboard" /\ c.plat = "ledger")))}
 
-Env0 == [mode |-> "?", onb |-> "?", echo |-> "?", answers |-> "?", retry |-> "?",
+Env0 == [pinc |-> "?", mode |-> "?", onb |-> "?", echo |-> "?", answers |-> "?", retry |-> "?",
          wipe |-> "?", unlock |-> "?", newpin |-> "?", mode2 |-> "?", keys |-> "?"]
 
 Init == /\ pc = "start" /\ cfg \in Cfgs /\ env = Env0
@@ -44,14 +57,14 @@ Init == /\ pc = "start" /\ cfg \in Cfgs /\ env = Env0
         /\ obs = InitObs /\ outcome = "none" /\ hist = <<>>
         /\ files = [txt |-> <<>>, json |-> <<>>] /\ pin = <<>>
 
-P == PinOf(cfg.pinc)
+P == PinOf(env.pinc)
 Answers(a) == IF a = "yes" THEN <<"yes">> ELSE IF a = "no" THEN <<"no">>
               ELSE IF a = "oy" THEN <<"other", "yes">> ELSE IF a = "on" THEN <<"other", "no">>
               ELSE <<"yes">>           \* never asked: read in favour of the precondition
 \* the run's inputs as AdminProps wants them
 C == [op |-> cfg.op, plat |-> cfg.plat, any_pin |-> cfg.any_pin, no_unlock |-> cfg.no_unlock,
       src |-> cfg.src,
-      pins |-> IF cfg.src = "prompt" /\ env.retry = "valid" THEN <<P, PinOf("valid")>> ELSE <<P>>,
+      pins |-> IF cfg.src = "prompt" /\ env.retry = "valid" THEN <<P, PinOf("ok")>> ELSE <<P>>,
       upin |-> UPin, outfile |-> cfg.outfile, answers |-> Answers(env.answers),
       d0 |-> [mode |-> env.mode, onb |-> env.onb, echo |-> env.echo],
       acc |-> [wipe |-> env.wipe, unlock |-> env.unlock, newpin |-> env.newpin],
@@ -74,20 +87,23 @@ Unlockish == cfg.op \in {"unlock", "changepin", "pubkeys"}
 (***************************************************************************)
 (* Option validation (no device exchange)                                  *)
 (***************************************************************************)
+AfterValidation(p) ==
+    IF cfg.op = "changepin"
+    THEN (IF cfg.no_unlock THEN Go("mode2") /\ UNCHANGED pin ELSE Go("mode") /\ pin' = UPin)
+    ELSE Go("mode") /\ pin' = p
+
 Validate ==
-    /\ pc = "start" /\ Quiet /\ UNCHANGED <<cfg, env, dev, files>>
-    /\ IF cfg.op = "onboard" THEN
-           IF cfg.plat = "ledger" /\ ~cfg.outfile THEN Fail /\ UNCHANGED pin
-           ELSE IF cfg.src = "opt" /\ ~Valid(P, FALSE) THEN Fail /\ UNCHANGED pin
-           ELSE Go("mode") /\ pin' = (IF cfg.src = "opt" THEN P ELSE <<>>)
-       ELSE IF cfg.op = "changepin" THEN
-           IF cfg.src = "opt" /\ ~Valid(P, cfg.any_pin) THEN Fail /\ UNCHANGED pin
-           ELSE IF cfg.no_unlock THEN Go("mode2") /\ UNCHANGED pin
-           ELSE Go("mode") /\ pin' = UPin
-       ELSE IF cfg.op = "pubkeys" /\ cfg.no_unlock THEN Go("mode2") /\ UNCHANGED pin
-       ELSE \* unlock, pubkeys with unlock
-           IF cfg.src = "opt" /\ ~Valid(P, cfg.any_pin) THEN Fail /\ UNCHANGED pin
-           ELSE Go("mode") /\ pin' = (IF cfg.src = "opt" THEN P ELSE <<>>)
+    /\ pc = "start" /\ Quiet /\ UNCHANGED <<cfg, dev, files>>
+    /\ IF cfg.op = "onboard" /\ cfg.plat = "ledger" /\ ~cfg.outfile
+       THEN Fail /\ UNCHANGED <<pin, env>>
+       ELSE IF cfg.op = "pubkeys" /\ cfg.no_unlock THEN Go("mode2") /\ UNCHANGED <<pin, env>>
+       ELSE IF cfg.src = "prompt" THEN AfterValidation(<<>>) /\ UNCHANGED env
+       ELSE \* a PIN given as an option is looked at first of all (onboard: always held to the policy)
+            \E c \in PinClasses :
+              /\ env' = [env EXCEPT !.pinc = c]
+              /\ IF Valid(PinOf(c), IF cfg.op = "onboard" THEN FALSE ELSE cfg.any_pin)
+                 THEN AfterValidation(PinOf(c))
+                 ELSE Fail /\ UNCHANGED pin
 
 (***************************************************************************)
 (* Device questions                                                        *)
@@ -136,15 +152,17 @@ Confirm ==
 
 \* ask_for_pin(any): re-asks until valid; the operator then types a valid PIN or gives up (EOF)
 Prompt(any, next) ==
-    IF Valid(P, any)
-    THEN /\ Emit(<<E("getpass", dev, "na", "na")>>) /\ pin' = P /\ Go(next) /\ UNCHANGED env
-    ELSE \E r \in {"valid", "eof"} :
-           /\ env' = [env EXCEPT !.retry = r]
-           /\ IF r = "valid"
-              THEN /\ Emit(<<E("getpass", dev, "na", "na"), E("getpass", dev, "na", "na")>>)
-                   /\ pin' = PinOf("valid") /\ Go(next)
-              ELSE /\ Emit(<<E("getpass", dev, "na", "na"), E("getpass", dev, "na", "f")>>)
-                   /\ UNCHANGED pin /\ Fail
+    \E c \in PinClasses :
+      IF Valid(PinOf(c), any)
+      THEN /\ env' = [env EXCEPT !.pinc = c]
+           /\ Emit(<<E("getpass", dev, "na", "na")>>) /\ pin' = PinOf(c) /\ Go(next)
+      ELSE \E r \in {"valid", "eof"} :
+             /\ env' = [env EXCEPT !.pinc = c, !.retry = r]
+             /\ IF r = "valid"
+                THEN /\ Emit(<<E("getpass", dev, "na", "na"), E("getpass", dev, "na", "na")>>)
+                     /\ pin' = PinOf("ok") /\ Go(next)
+                ELSE /\ Emit(<<E("getpass", dev, "na", "na"), E("getpass", dev, "na", "f")>>)
+                     /\ UNCHANGED pin /\ Fail
 
 GetPin ==
     /\ pc = "getpin"
@@ -196,16 +214,20 @@ SgxOnboard ==
             ELSE UNCHANGED dev /\ Fail
     /\ UNCHANGED <<cfg, files, pin>>
 
-\* Ledger only: [Enter], reconnect, do_unlock(no_exec), attestation setup, certificate
+\* Ledger only: [Enter], reconnect, do_unlock(no_exec), attestation setup, certificate.
+\* The device kept at most 8 PIN characters: a longer PIN (any-PIN only) no longer unlocks it.
 PostUnlock ==
     /\ pc = "enter"
-    /\ Emit(<<E("stdin", dev, "other", "na"),
-              E("get_mode", dev, "boot", "t"), E("is_onboard", dev, "yes", "t"),
-              E("echo", dev, "na", "t")>>
-            \o (IF cfg.src = "prompt" THEN <<E("getpass", dev, "na", "na")>> ELSE <<>>)
-            \o PinBytes(pin, dev)
-            \o <<E("unlock", dev, "na", "t"), E("exit", dev, "na", "na")>>)
-    /\ Go("attest") /\ UNCHANGED <<cfg, env, dev, files, pin>>
+    /\ LET ok == IF Len(pin) <= 8 THEN "t" ELSE "f" IN
+       /\ Emit(<<E("stdin", dev, "other", "na"),
+                 E("get_mode", dev, "boot", "t"), E("is_onboard", dev, "yes", "t"),
+                 E("echo", dev, "na", "t")>>
+               \o (IF cfg.src = "prompt" THEN <<E("getpass", dev, "na", "na")>> ELSE <<>>)
+               \o PinBytes(pin, dev)
+               \o <<E("unlock", dev, "na", ok)>>
+               \o (IF ok = "t" THEN <<E("exit", dev, "na", "na")>> ELSE <<>>))
+       /\ IF ok = "t" THEN Go("attest") ELSE Fail
+    /\ UNCHANGED <<cfg, env, dev, files, pin>>
 
 Attest ==
     /\ pc = "attest"
@@ -316,6 +338,7 @@ OnboardSafe    == OnboardSafeP(obs)
 SeedFresh      == SeedFreshP(obs)
 UnlockSafe     == UnlockSafeP(obs)
 PinPolicy      == PinPolicyP(obs)
+PinHeld        == Terminal => PinHeldP(C, obs, pin)
 Carried        == Terminal => CarriedP(C, obs, outcome)
 PubkeysWritten == Terminal => PubkeysWrittenP(C, outcome, files, Expect)
 \* vacuity guards: each must be *violated* (negative configurations)
